@@ -14,7 +14,7 @@
 //! corruption of three valid messages (signature, signed attributes / signer info, eContent and the
 //! rest); (D, on by default, `--local 0` to skip) the local shortcut: honest (`loc`), across an identity update of
 //! the local child, and with a contact naming another child's handle (`mallory`, finding F12a, fixed by /repo 1a6ebc01:
-//! must be refused), and the publication shortcut: honest, the CA `pz` named like a publisher registered with a remote ID key
+//! must be refused), the same with the embedded TA (the proxy aggregate) as local parent, and the publication shortcut: honest, the CA `pz` named like a publisher registered with a remote ID key
 //! (finding F12b, fixed by /repo 346cb17c: must be refused), and across an identity update of a local CA.
 //!
 //! Per message one Coq `case` (ident/IdentCheck.v): abstracted parent / repository state before and
@@ -32,7 +32,7 @@ use krill::commons::crypto::KrillSigner;
 use krill::commons::crypto::KrillSignerBuilder;
 use krill::commons::eventsourcing::{WalStore, WalSupport};
 use krill::commons::storage::{Ident, StorageSystem};
-use krill::constants::{CASERVER_NS, PUBSERVER_CONTENT_NS};
+use krill::constants::{CASERVER_NS, PUBSERVER_CONTENT_NS, STATUS_NS};
 use krill::server::pubd::RepositoryContent;
 use rpki::ca::idcert::IdCert;
 use rpki::ca::idexchange::{MyHandle, ParentResponse, PublisherRequest, RepoInfo};
@@ -216,6 +216,59 @@ fn coq_parent(p: &AParent) -> String {
         format!("({h}, mkChild {} {} {} {} {last})", c.id, c.ent, coq_list(&used), c.susp)
     }).collect();
     format!("(mkParent {} {} {} {} {})", p.handle, p.id, coq_list(&classes), coq_list(&children), p.hist)
+}
+
+// ---------------------------------------------------------------- abstraction of the TA proxy (as a parent)
+
+#[derive(Clone, PartialEq, Debug)]
+struct ATaChild { id: u64, ent: u64, used: Vec<(u64, Option<u64>)>, open_req: Vec<(u64, bool)>, open_resp: Vec<(u64, bool)>, last: Option<(u64, bool)> }
+#[derive(Clone, PartialEq, Debug)]
+struct ATa { children: Vec<(u64, ATaChild)>, hist: u64, raw_status: BTreeMap<String, String>, raw: String }
+
+fn observe_ta(w: &mut World) -> ATa {
+    let proxy = w.sys.krill.ca_manager().get_trust_anchor_proxy().expect("ta proxy");
+    let pj = serde_json::to_value(&*proxy).unwrap();
+    let status = w.sys.krill.storage().open(STATUS_NS).expect("status store");
+    let scope = Ident::boxed_from_string("ta".to_string()).unwrap();
+    let mut children = Vec::new();
+    let mut raw_status = BTreeMap::new();
+    let mut handles: Vec<String> = match pj.get("child_details") { Some(Value::Object(o)) => o.keys().cloned().collect(), _ => vec![] };
+    handles.sort();
+    for h in handles {
+        let d = proxy.get_child(&child_handle(&h)).expect("ta child");
+        let idn = { let pk = d.id.public_key.clone(); w.adopt_id(&pk, &format!("{h}-id-at-ta")).n };
+        let cj = &pj["child_details"][h.as_str()];
+        let mut used = Vec::new();
+        if let Some(Value::Object(u)) = cj.get("used_keys") { for (k, st) in u { used.push((w.it.certkey(k), st.get("in_use").map(|c| w.it.rcn(&json_str(c))))); } }
+        used.sort();
+        let kinds = |it: &mut Interner, m: Option<&Value>| -> Vec<(u64, bool)> {
+            let mut v = Vec::new();
+            if let Some(Value::Object(o)) = m { for (k, r) in o { let t = r.to_string(); v.push((it.certkey(k), t.contains("csr") || t.contains("issu"))); } }
+            v.sort(); v
+        };
+        let open_req = kinds(&mut w.it, cj.get("open_requests"));
+        let open_resp = kinds(&mut w.it, cj.get("open_responses"));
+        let key = Ident::boxed_from_string(format!("children-{h}.json")).unwrap();
+        let st: Value = status.get::<Value>(Some(&scope), &key).ok().flatten().unwrap_or(Value::Null);
+        raw_status.insert(h.clone(), st.to_string());
+        let last = match st.get("last_exchange") {
+            Some(e) if !e.is_null() => Some((ua_number(e["user_agent"].as_str()), e["result"].as_str() == Some("success") || e["result"] == json!("Success"))),
+            _ => None,
+        };
+        children.push((w.it.handle(&h), ATaChild { id: idn, ent: resources_to_mask(&d.resources), used, open_req, open_resp, last }));
+    }
+    children.sort_by_key(|c| c.0);
+    ATa { children, hist: pj["version"].as_u64().unwrap_or(0), raw_status, raw: pj.to_string() }
+}
+
+fn coq_ta(t: &ATa) -> String {
+    let nb = |v: &[(u64, bool)]| coq_list(&v.iter().map(|(k, b)| format!("({k}, {b})")).collect::<Vec<_>>());
+    let children: Vec<String> = t.children.iter().map(|(h, c)| {
+        let used: Vec<String> = c.used.iter().map(|(k, u)| format!("({k}, {})", match u { Some(r) => format!("InUse {r}"), None => "Revoked".into() })).collect();
+        let last = match c.last { Some((ua, ok)) => format!("(Some ({ua}, {ok}))"), None => "None".into() };
+        format!("({h}, mkTaChild {} {} {} {} {} {last})", c.id, c.ent, coq_list(&used), nb(&c.open_req), nb(&c.open_resp))
+    }).collect();
+    format!("(mkTa {} {})", coq_list(&children), t.hist)
 }
 
 // ---------------------------------------------------------------- abstraction of the repository
@@ -862,7 +915,18 @@ fn scenario(args: &Args, dir: &std::path::Path, out: &mut Out, ex: &mut Extra) {
             let wrong = remotes[2].id.clone();
             if let Some(bytes) = sign6492(&w, m.clone(), &wrong) { pre = case6492(&mut w, out, &pre, &bytes, &m, &wrong, None, "A-susp", &mut ex.ua, json!({"signer_class": "other-child", "kind": "list-while-suspended"})); }
             let right = remotes[1].id.clone();
-            if let Some(bytes) = sign6492(&w, m.clone(), &right) { pre = case6492(&mut w, out, &pre, &bytes, &m, &right, None, "A-susp", &mut ex.ua, json!({"signer_class": "registered", "kind": "list-while-suspended"})); }
+            if let Some(bytes) = sign6492(&w, m.clone(), &right) { let _ = case6492(&mut w, out, &pre, &bytes, &m, &right, None, "A-susp", &mut ex.ua, json!({"signer_class": "registered", "kind": "list-while-suspended"})); }
+            // suspend c2 (it holds certificates for atoms 4-5 and one limited to atom 4) and SHRINK its entitlement to atom 4
+            // while it is suspended: the implicit unsuspend of its next authentic request may re-issue only what still fits
+            w.sys.child_suspend(PAR, "c2", true).expect("suspend c2");
+            w.sys.update_child_resources(PAR, "c2", atoms_to_resources(0x10)).expect("shrink c2");
+            remotes[2].ent_mask = 0x10;
+            pre = observe_parent(&mut w);
+            let m = provisioning::Message::list(child_handle("c2").convert(), parent_handle(PAR).convert());
+            let wrong = remotes[0].id.clone();
+            if let Some(bytes) = sign6492(&w, m.clone(), &wrong) { pre = case6492(&mut w, out, &pre, &bytes, &m, &wrong, None, "A-susp", &mut ex.ua, json!({"signer_class": "other-child", "kind": "list-while-suspended-and-shrunk"})); }
+            let right = remotes[2].id.clone();
+            if let Some(bytes) = sign6492(&w, m.clone(), &right) { pre = case6492(&mut w, out, &pre, &bytes, &m, &right, None, "A-susp", &mut ex.ua, json!({"signer_class": "registered", "kind": "list-while-suspended-and-shrunk"})); }
         }
     }
 
@@ -1073,6 +1137,65 @@ fn scenario(args: &Args, dir: &std::path::Path, out: &mut Out, ex: &mut Extra) {
         let idc = w.sys.ca("loc").unwrap().child_request().validate().expect("loc id cert");
         w.sys.krill.ca_manager().ca_child_update(&ca_handle(PAR), child_handle("loc"), UpdateChildRequest::id_cert(idc), &w.sys.actor, &w.sys.krill).expect("loc id at parent");
         local_sync(&mut w, out, "loc", "loc", "local child after ca_update_id, the parent now has the new ID certificate");
+    }
+
+    // ---- stream D, trust anchor: the local shortcut with the embedded TA (the proxy aggregate) as parent
+    if do_local {
+        let ta_sync = |w: &mut World, out: &mut Out, ca: &str, contact_child: &str, what: &str| {
+            std::thread::sleep(Duration::from_millis(1100)); // status timestamps have a resolution of one second
+            let pre = observe_ta(w);
+            let res = w.sys.sync_parent(ca, "ta");
+            let post = observe_ta(w);
+            let who: Option<String> = post.raw_status.iter().find(|(h, s)| pre.raw_status.get(*h) != Some(*s)).map(|(h, _)| h.clone());
+            let mut reqs: Vec<String> = Vec::new();
+            if let Some(h) = &who {
+                reqs.push("RList".into());
+                let hn = w.it.handle(h);
+                let get = |t: &ATa| t.children.iter().find(|c| c.0 == hn).map(|c| c.1.clone());
+                if let (Some(c0), Some(c1)) = (get(&pre), get(&post)) {
+                    let term = |k: u64, issue: bool| if issue { format!("(RIssue 1000 {k} None true)") } else { format!("(RRevoke 1000 {k})") };
+                    // a waiting response that was handed out, a request that was queued
+                    for (k, issue) in &c0.open_resp { if !c1.open_resp.iter().any(|x| x.0 == *k) { reqs.push(term(*k, *issue)); } }
+                    for (k, issue) in &c1.open_req { if !c0.open_req.iter().any(|x| x.0 == *k) { reqs.push(term(*k, *issue)); } }
+                }
+            }
+            if who.is_none() && res.is_err() { reqs.push("RList".into()); }
+            if who.is_none() && (pre.raw != post.raw || pre.raw_status != post.raw_status) {
+                out.impl_failures.push(json!({"index": out.w.total, "class": {"refused_but_raw_state_changed": true, "protocol": "rfc6492", "path": "local-shortcut-ta"},
+                    "what": format!("local exchange of '{ca}' with the TA that was not served changed the stored TA proxy / child status")}));
+            }
+            let ca_pk = w.sys.ca(ca).unwrap().id_cert().public_key.clone();
+            let cid = w.adopt_id(&ca_pk, &format!("{ca}-id"));
+            let caller = format!("(mkCaller {} {} {})", w.it.handle(ca), cid.n, w.it.handle(contact_child));
+            let who_term = match &who { Some(h) => format!("(Some {})", w.it.handle(h)), None => "None".into() };
+            let (pre_t, post_t) = (coq_ta(&pre), coq_ta(&post));
+            let term = if pre_t == post_t { format!("(let p := {pre_t} in CLocalTa p {caller} {} p {who_term})", coq_list(&reqs)) }
+                       else { format!("(CLocalTa {pre_t} {caller} {} {post_t} {who_term})", coq_list(&reqs)) };
+            let contact_reg = { let hn = w.it.handle(contact_child); pre.children.iter().find(|c| c.0 == hn).map(|c| c.1.id) };
+            let victim_open = { let hn = w.it.handle(contact_child); post.children.iter().find(|c| c.0 == hn).map(|c| c.1.open_req.len()) };
+            let rec = json!({"protocol": "rfc6492", "stream": "D-local-ta", "parent": "ta", "caller_ca": ca, "caller_id_key": cid.n, "contact_child_handle": contact_child,
+                "registered_key_of_contact_child": contact_reg, "what": what, "sync_result": format!("{:?}", res.as_ref().map_err(|e| e.to_string())), "served_as": who,
+                "requests_seen_at_ta_proxy": reqs, "outcome": if who.is_some() { "served" } else { "refused" }, "state_changed": pre != post,
+                "ta_proxy_version_before": pre.hist, "ta_proxy_version_after": post.hist, "open_requests_of_contact_child_after": victim_open,
+                "resources_of_caller_after": w.sys.ca(ca).map(|c| c.all_resources().to_string()).unwrap_or_default(),
+                "class": {"path": "local-shortcut-ta", "protocol": "rfc6492", "contact_names_foreign_child": contact_reg.map(|k| k != cid.n).unwrap_or(false)}});
+            out.push(term, rec, "D-local-ta", Some(format!("localta|{ca}|{contact_child}|{}", out.w.total)));
+        };
+        w.it.rcn("default"); // the TA's class name is number 1000 (Local.ta_rcn)
+        // an honest child of the TA: request queued, signed by the (embedded) TA signer, response handed out
+        w.sys.add_ca("tchild").expect("tchild");
+        w.sys.add_parent("tchild", "ta", atoms_to_resources(0x300)).expect("tchild under ta");
+        ta_sync(&mut w, out, "tchild", "tchild", "honest child of the TA, sync 0");
+        w.sys.sync_ta().expect("proxy-signer exchange");
+        ta_sync(&mut w, out, "tchild", "tchild", "honest child of the TA, sync 1 (its certificate request is queued)");
+        w.sys.sync_ta().expect("proxy-signer exchange");
+        ta_sync(&mut w, out, "tchild", "tchild", "honest child of the TA, sync 2 (after the proxy-signer exchange: the waiting response is handed out)");
+        // mallory's administrator stores the TA's parent response for `tchild`: must be refused, nothing queued in tchild's name
+        let resp = w.sys.krill.ca_manager().ca_parent_response(&ca_handle("ta"), child_handle("tchild"), w.sys.krill.service_uri()).expect("parent response of the TA for tchild");
+        w.sys.krill.ca_manager().ca_parent_add_or_update(ca_handle("mallory"), ParentCaReq { handle: parent_handle("ta"), response: resp }, &w.sys.actor, &w.sys.krill).expect("mallory stores a TA contact naming tchild");
+        for i in 0..2 { ta_sync(&mut w, out, "mallory", "tchild", &format!("CA 'mallory' (no child of the TA) with a stored TA contact naming child handle 'tchild', sync {i}")); }
+        // `par` replaced its ID key (stream A) and the TA still has the previous one registered: refused as well
+        ta_sync(&mut w, out, PAR, PAR, "child of the TA after ca_update_id, the TA still has the previous ID certificate");
     }
 
     // ---- stream D, publication: the local RFC 8181 shortcut (repaired by /repo 346cb17c)
